@@ -4,6 +4,7 @@ import IxpeVerif.Model.EventList
 import IxpeVerif.Gen.Formulas
 import IxpeVerif.Model.Gti
 import IxpeVerif.Model.Select
+import IxpeVerif.Model.SelectKw
 /-! Dispatcher of the hand-written models for the line-protocol driver.  Integers travel in decimal. -/
 namespace Driver
 
@@ -53,6 +54,10 @@ def selRows : List Int → List Sel.Row
 def errCode : Sel.Err → String
   | .timeAndPhase => "timeAndPhase" | .coneAndReg => "coneAndReg" | .tminOut => "tminOut" | .tmaxOut => "tmaxOut"
   | .tminGeTmax => "tminGeTmax" | .pminOut => "pminOut" | .pmaxOut => "pmaxOut" | .pminGePmax => "pminGePmax"
+
+def optF (w : String) : Option Float := if w == "N" then none else some (fbits w.toInt!)
+def showOptF (x : Option Float) : String := match x with | none => "N" | some v => toString v.toBits
+def fw (w : String) : Float := fbits w.toInt!
 
 def rowsOf : List Int → List EvL.Row
   | t :: s :: f :: g :: rest => ⟨t, s, f != 0, g.toNat⟩ :: rowsOf rest
@@ -115,6 +120,12 @@ def step (ws : List String) : String :=
     match Sel.validate c (key64 ts.toInt!) (key64 te.toInt!) (key32 (0.0 : Float).toFloat32) (key32 (1.0 : Float).toFloat32) with
     | some e => "err " ++ errCode e
     | none => "ok " ++ showInts ((Sel.select c (selRows (ints rows))).map fun r => (r.tag : Int))
+  | ["selkw", ts, te, on, lt, nt, ns, ls, tmin, tmax, pmin, pmax, sc] =>
+    let k : SelKw.In Float := { tstart := fw ts, tstop := fw te, ontime := fw on, livetime := fw lt, nTotal := fw nt, nSel := fw ns,
+                                ltSumSel := fw ls, tmin := optF tmin, tmax := optF tmax, pmin := optF pmin, pmax := optF pmax, ltscale := sc == "1" }
+    match SelKw.keywords k with
+    | none => "none"
+    | some o => " ".intercalate [showOptF o.tstart, showOptF o.tstop, toString o.ontime.toBits, toString o.livetime.toBits, toString o.deadc.toBits]
   | ["pikey", pi] => showInts [piKey pi.toInt!]
   | ["split", t] => let r := EvL.splitTime t.toInt!; showInts [r.1, r.2]
   | _ => "bad-op"
